@@ -90,6 +90,19 @@ func c03Gen(g *core.Gen) {
 			}
 		}
 	}
+	for pb := 1; pb <= 3; pb++ {
+		pcfg := scen.P2Config{Sizes: []int{11, 6}, Slice: 4, Blocks: 3, Class: "uniq"}
+		for _, m := range append([]scen.Dmg{{Op: "none"}}, scen.DataMenu(pcfg.Sizes, pcfg.Slice, nRecFiles(pcfg.Blocks), false)...) {
+			g.Emit(&p2Case{Cfg: pcfg, Dmg: []scen.Dmg{m}, G: 1, PriorBad: pb})
+		}
+	}
+	// Verify's counts through a Decoder object that lives on: loads whose k-th read fails (also half-way), interrupted
+	// Repairs, a recovery file cut short and restored - then counts on the same object
+	for _, a := range dpFaultAlphabet {
+		for _, b := range dpFaultAlphabet {
+			g.Emit(&p2Case{Dec: &decProtoCase{Fmt: "p2", Prefix: []int{a, b}, Depth: 5, Fault: true}})
+		}
+	}
 	genGenerationCases(func(c *p2Case) { g.Emit(c) }, false)
 	for _, lc := range c01LargeConfigs(g.Thorough()) {
 		cfg := lc
@@ -116,6 +129,10 @@ func init() {
 		NewCase: func() interface{} { return &p2Case{} },
 		Gen:     c03Gen,
 		Run: func(ci interface{}, r *core.Rec) {
+			if c := ci.(*p2Case); c.Dec != nil {
+				decProtoRun(c.Dec, r, func(d *decProtoCase) interface{} { return &p2Case{Dec: d} })
+				return
+			}
 			runP2(ci.(*p2Case), r, p2Clauses{VerifyTruth: true})
 		},
 	})
